@@ -3,7 +3,8 @@
    are arbitrary functions.  Times: [now], offset and max ages in ns, claim times
    in s; [instant], [round_s], [is_zero_time] in C01_Verifier; [id_token_valid],
    [id_token_margin], [at_hash_matches] in C01_proofs. *)
-From OIDC Require Import Lib Base64 Base64_proofs C02_Jws C01_Verifier C02_Ground C01_spec C02_proofs C01_proofs C01_athash_proofs.
+From OIDC Require Import Lib Base64 Base64_proofs C02_Jws C01_Verifier C02_Ground C01_Options C01_spec C02_proofs
+  C01_options_proofs C01_proofs C01_athash_proofs C01_optlift_proofs.
 
 (* rp.VerifyIDToken returns claims c only if c is the parsed payload unchanged,
    the token carries exactly one signature with an allowed algorithm verifying
@@ -110,8 +111,164 @@ Print Assumptions C01_at_hash_other_token_rejected.
 (* the property predicate evaluated by the correspondence run (soundness at the
    weakest, completeness at the strongest end of the clock bracket [now0,now1])
    holds of the model for every input whose bracket is ordered and lies after
-   year 1 - single calls and sequences of calls on ONE verifier / key set (each
-   answer of a sequence judged from its own call only) *)
+   year 1 - single calls, sequences of calls on ONE verifier / key set (each
+   answer of a sequence judged from its own call only), and calls on a verifier
+   built by rp.NewIDTokenVerifier from an option list (configuration read back,
+   answer judged for the configuration the option list documents, accessors of
+   the returned claims compared with the payload) *)
 Theorem C01_spec_model : forall i, wf i -> spec i (model i) = true.
 Proof. exact spec_model. Qed.
 Print Assumptions C01_spec_model.
+
+(* ---------- the verifier's configuration comes from an option list ----------
+   [new_id_token_verifier issuer client opts] (C01_Options): the struct literal of
+   rp.NewIDTokenVerifier followed by the loop that applies every option;
+   [configured issuer client opts] (C01_spec): per setting, the value of the LAST
+   option naming it, else the default (offset 1 s, max ages 0, nonce "" expected,
+   no ACR requirement, default algorithm list). *)
+
+(* the loop computes exactly that configuration - the one C01_sound / C01_complete speak about *)
+Theorem C01_options_configured : forall issuer client opts,
+  new_id_token_verifier issuer client opts = configured issuer client opts.
+Proof. exact options_configured. Qed.
+Print Assumptions C01_options_configured.
+
+(* each option sets exactly its own field and leaves all the others unchanged *)
+Theorem C01_option_sets_own_field : forall v o,
+  let v' := apply_opt v o in
+  v_issuer v' = v_issuer v /\ v_client v' = v_client v
+  /\ v_offset v' = match o with WithIssuedAtOffset d => d | _ => v_offset v end
+  /\ v_max_iat v' = match o with WithIssuedAtMaxAge d => d | _ => v_max_iat v end
+  /\ v_nonce v' = match o with WithNonce n => n | _ => v_nonce v end
+  /\ v_acr v' = match o with WithACRVerifier l => l | _ => v_acr v end
+  /\ v_max_age v' = match o with WithAuthTimeMaxAge d => d | _ => v_max_age v end
+  /\ v_algs v' = match o with WithSupportedSigningAlgorithms l => l | _ => v_algs v end.
+Proof. exact option_sets_own_field. Qed.
+Print Assumptions C01_option_sets_own_field.
+
+(* the order of two neighbouring options for different fields does not matter *)
+Theorem C01_options_order_insensitive : forall issuer client l1 o1 o2 l2,
+  opt_kind o1 <> opt_kind o2 ->
+  new_id_token_verifier issuer client (l1 ++ o1 :: o2 :: l2)
+  = new_id_token_verifier issuer client (l1 ++ o2 :: o1 :: l2).
+Proof. exact options_order_insensitive. Qed.
+Print Assumptions C01_options_order_insensitive.
+
+(* last one wins: an option followed anywhere later by one for the same field has no effect *)
+Theorem C01_options_last_wins : forall issuer client l1 o1 l2 o2 l3,
+  opt_kind o1 = opt_kind o2 ->
+  new_id_token_verifier issuer client (l1 ++ o1 :: l2 ++ o2 :: l3)
+  = new_id_token_verifier issuer client (l1 ++ l2 ++ o2 :: l3).
+Proof. exact options_last_wins. Qed.
+Print Assumptions C01_options_last_wins.
+
+(* C01_sound for a verifier described by its option list *)
+Theorem C01_options_sound : forall verify issuer client opts ks t m now c alg,
+  verify_id_token verify (new_id_token_verifier issuer client opts) ks t m now = Accept c alg ->
+  (exists bytes e k,
+      m = MidOk bytes c
+      /\ tok_sigs t = [e] /\ tok_payload t = Some bytes
+      /\ alg = se_alg e
+      /\ string_in alg (effective_algs (v_algs (configured issuer client opts))) = true
+      /\ In k (ks_keys ks) /\ trusted_key ks e k = true /\ verify k e bytes = true)
+  /\ id_token_valid (configured issuer client opts) c now.
+Proof. exact options_sound. Qed.
+Print Assumptions C01_options_sound.
+
+(* C01_complete for a verifier described by its option list *)
+Theorem C01_options_complete : forall verify issuer client opts ks t bytes c now alg,
+  check_signature verify (v_algs (configured issuer client opts)) ks t bytes = Ok alg ->
+  id_token_margin (configured issuer client opts) c now ->
+  verify_id_token verify (new_id_token_verifier issuer client opts) ks t (MidOk bytes c) now = Accept c alg.
+Proof. exact options_complete. Qed.
+Print Assumptions C01_options_complete.
+
+Theorem C01_options_tokens_sound : forall verify H issuer client opts ks t m access_token now c alg,
+  verify_tokens verify H (new_id_token_verifier issuer client opts) ks t m access_token now = Accept c alg ->
+  id_token_valid (configured issuer client opts) c now /\ at_hash_matches H c alg access_token.
+Proof. exact options_tokens_sound. Qed.
+Print Assumptions C01_options_tokens_sound.
+
+Theorem C01_options_tokens_complete : forall verify H issuer client opts ks t bytes c access_token now alg,
+  check_signature verify (v_algs (configured issuer client opts)) ks t bytes = Ok alg ->
+  id_token_margin (configured issuer client opts) c now ->
+  at_hash_matches H c alg access_token ->
+  verify_tokens verify H (new_id_token_verifier issuer client opts) ks t (MidOk bytes c) access_token now
+  = Accept c alg.
+Proof. exact options_tokens_complete. Qed.
+Print Assumptions C01_options_tokens_complete.
+
+(* WithAuthTimeMaxAge d (d <> 0, no later option of that kind): an accepted token
+   carries an auth_time not before round(now - d); WithIssuedAtMaxAge likewise for iat *)
+Theorem C01_options_auth_age_enforced : forall verify issuer client l1 d l2 ks t m now c alg,
+  (forall o, In o l2 -> opt_kind o <> KMaxAge) -> d <> 0%Z ->
+  verify_id_token verify (new_id_token_verifier issuer client (l1 ++ WithAuthTimeMaxAge d :: l2)) ks t m now
+  = Accept c alg ->
+  is_zero_time (c_auth_time c) = false /\ (round_s (now - d) <= instant (c_auth_time c))%Z.
+Proof. exact options_auth_age_enforced. Qed.
+Print Assumptions C01_options_auth_age_enforced.
+
+Theorem C01_options_iat_age_enforced : forall verify issuer client l1 d l2 ks t m now c alg,
+  (forall o, In o l2 -> opt_kind o <> KMaxIat) -> d <> 0%Z ->
+  verify_id_token verify (new_id_token_verifier issuer client (l1 ++ WithIssuedAtMaxAge d :: l2)) ks t m now
+  = Accept c alg ->
+  is_zero_time (c_iat c) = false /\ (round_s (now - d) <= instant (c_iat c))%Z.
+Proof. exact options_iat_age_enforced. Qed.
+Print Assumptions C01_options_iat_age_enforced.
+
+(* ---------- "claims returned unchanged", at the accessors ----------
+   [getters c alg p] (C01_Options): GetIssuer ... GetAccessTokenHash,
+   GetSignatureAlgorithm and GetUserInfo of claims c carrying SignatureAlg alg
+   (p: the profile members of the payload); times as (IsZero, Unix seconds).
+   What the relying party reads through them after an acceptance is the parsed
+   payload (getters_report: the run's predicate) and satisfies what was validated:
+   issuer, subject (also in the UserInfo), audience, azp, iat and exp present
+   with exp after now + offset, auth_time present when a max age is configured. *)
+Theorem C01_accepted_getters : forall verify v ks t m now c alg p,
+  verify_id_token verify v ks t m now = Accept c alg ->
+  let g := getters c alg p in
+  (exists bytes, m = MidOk bytes c)
+  /\ getters_report c alg p g = true
+  /\ g_iss g = v_issuer v /\ g_sub g <> "" /\ ui_sub g = g_sub g /\ In (v_client v) (g_aud g)
+  /\ (g_azp g <> "" -> g_azp g = v_client v)
+  /\ gt_zero (g_iat g) = false /\ gt_unix (g_iat g) = c_iat c
+  /\ ((zero_unix * ns <= now + v_offset v)%Z ->
+      gt_zero (g_exp g) = false /\ gt_unix (g_exp g) = c_exp c /\ (now + v_offset v < gt_unix (g_exp g) * ns)%Z)
+  /\ (v_max_age v <> 0%Z -> gt_zero (g_auth_time g) = false /\ gt_unix (g_auth_time g) = c_auth_time c).
+Proof. exact accepted_getters. Qed.
+Print Assumptions C01_accepted_getters.
+
+(* every accessor reports the claim of the payload: strings, audience list and
+   profile members unchanged; a present time claim as that second, an absent one as no time *)
+Theorem C01_getters_strings : forall c alg p,
+  let g := getters c alg p in
+  g_iss g = c_iss c /\ g_sub g = c_sub c /\ g_aud g = c_aud c /\ g_nonce g = c_nonce c
+  /\ g_acr g = c_acr c /\ g_azp g = c_azp c /\ g_alg g = alg /\ g_at_hash g = c_at_hash c
+  /\ ui_sub g = c_sub c /\ ui_ext g = c_extra c
+  /\ ui_name g = p_name p /\ ui_given g = p_given p /\ ui_family g = p_family p
+  /\ ui_username g = p_username p /\ ui_email g = p_email p /\ ui_email_verified g = p_email_verified p
+  /\ ui_phone g = p_phone p /\ ui_phone_verified g = p_phone_verified p
+  /\ ui_address g = p_address p /\ ui_updated_at g = p_updated_at p /\ ui_members g = p_members p.
+Proof. exact getters_strings. Qed.
+Print Assumptions C01_getters_strings.
+
+Theorem C01_getters_times : forall c alg p,
+  let g := getters c alg p in
+  (c_exp c <> 0%Z -> gt_unix (g_exp g) = c_exp c) /\ (c_exp c = 0%Z -> gt_zero (g_exp g) = true)
+  /\ (c_iat c <> 0%Z -> gt_unix (g_iat g) = c_iat c) /\ (c_iat c = 0%Z -> gt_zero (g_iat g) = true)
+  /\ (c_auth_time c <> 0%Z -> gt_unix (g_auth_time g) = c_auth_time c)
+  /\ (c_auth_time c = 0%Z -> gt_zero (g_auth_time g) = true).
+Proof. exact getters_times. Qed.
+Print Assumptions C01_getters_times.
+
+(* a payload that does not decode as ID-token claims - also: a member present
+   with a JSON type that does not fit its claim (azp / at_hash / nonce / acr as
+   array, number, object, bool; auth_time as array, object, bool, non-date string):
+   [MidJson] - is refused by VerifyIDToken and VerifyTokens under every
+   configuration; an ill-typed claim is never treated as absent *)
+Theorem C01_undecodable_rejected : forall verify H v ks t m now,
+  (forall bytes c, m <> MidOk bytes c) ->
+  verify_id_token verify v ks t m now = Reject (mid_error m)
+  /\ forall access_token, verify_tokens verify H v ks t m access_token now = Reject (mid_error m).
+Proof. exact undecodable_rejected. Qed.
+Print Assumptions C01_undecodable_rejected.
